@@ -69,8 +69,13 @@ def cases(rng, tier):
             cs.append(C.Case("k_fma", [isa, al, cf, ln] + d + s))
             if isa in (0, 1, 3, 4):
                 nw = -(-ln // 64)
-                wk = rng.below(4)
-                words = [rng.next() if wk == 0 else (0 if wk == 1 else ((1 << 64) - 1 if wk == 2 else (1 << rng.below(64)))) for _ in range(nw)]
+                wk = rng.below(6)
+
+                def word(kind):
+                    return rng.next() if kind == 0 else (0 if kind == 1 else ((1 << 64) - 1 if kind == 2 else (1 << rng.below(64))))
+
+                # kinds 4/5: every word chosen independently (sparse rows: zero words in front of non-zero ones)
+                words = [word(wk if wk < 4 else rng.choice([1, 1, 0, 3, 2])) for _ in range(nw)]
                 cb = c if c >= 1 else 1
                 if isa in (3, 4) and cb == 1 and False:
                     cb = 2
